@@ -239,7 +239,34 @@ func genRespSpec(rng *PRNG, name string) respSpec {
 		pi[method] = op
 		rs.Ops = append(rs.Ops, ro)
 	}
-	if rng.Chance(1, 6) && len(rs.Ops) >= 2 {
+	if rng.Chance(1, 8) {
+		// goag must refuse this too: ONE operation uses one shared response twice, once by its own
+		// name and once through an alias (two numbered statuses)
+		var alias string
+		for _, n := range compNames {
+			if strings.HasPrefix(n, "Alias") {
+				alias = n
+			}
+		}
+		if alias != "" {
+			root := resolveRoot(alias)
+			o := rs.Ops[0]
+			po := paths[o.Path].(map[string]any)[strings.ToLower(o.Method)].(map[string]any)["responses"].(map[string]any)
+			for st, r := range po {
+				if rr, ok := r.(map[string]any); ok {
+					if ref, ok := rr["$ref"].(string); ok && resolveRoot(strings.TrimPrefix(ref, "#/components/responses/")) == root {
+						delete(po, st)
+					}
+				}
+			}
+			if !usedAsDefault[root] {
+				po["409"] = map[string]any{"$ref": "#/components/responses/" + root}
+				po["410"] = map[string]any{"$ref": "#/components/responses/" + alias}
+				rs.MustReject = true
+			}
+		}
+	}
+	if !rs.MustReject && rng.Chance(1, 6) && len(rs.Ops) >= 2 {
 		// goag must refuse this: one shared response as 'default' in one operation and under a
 		// numbered status in another (either visiting order)
 		cn := compNames[0]
